@@ -17,15 +17,28 @@ INFO = dict(
 def _spec(nf):
     s = fvm.kspec(nf)
     s['site_types'].update({'hazard_pointer_thread_record_create_and_push#calloc0': '%struct.hazard_pointer_thread_record',
-                            'fiber_manager_get_mpmc_node#malloc0': '%struct.mpmc_fifo_node', 'vm_init#malloc\\d+': '%struct.mpmc_fifo_node'})
+                            'fiber_manager_\\w+#malloc\\d+': '%struct.mpmc_fifo_node', 'vm_init#malloc\\d+': '%struct.mpmc_fifo_node'})
     s['excl'] += [['create_and_push#calloc0', [3, 4, 5, 6], list(range(1, nf + 1))]]
-    s['pools'] = [['fiber_manager_get_mpmc_node#malloc0', t, 1, 48] for t in range(1, nf + 1)]
+    s['pools'] = [['fiber_manager_\\w+#malloc\\d+', t, 1, 48] for t in range(1, nf + 1)]
+    return s
+
+
+def _aspec(nf):
+    s = _spec(nf)
     return s
 
 
 def plan(tier, ctx):
     src = ['fiber_semaphore.c', 'fiber_mutex.c'] + fvm.KERNEL_SRCS
     j = []
+    A = ['ABSTRACT_QUEUE']
+    j += fvm.config('C06', 'semA_1w1p', 'sem.c', 2, 4, 'sc', srcs=src, defines=A + ['NWAIT=1', 'NPOST=1', 'V0MAX=1', 'TRYLAST=0'], spec=_aspec(2), bounds='abstract wait queue; 1 waiter, 1 poster, v0 in {0,1}', timeout=1800)
+    j += fvm.config('C06', 'semA_try1p', 'sem.c', 3, 4, 'sc', srcs=src, defines=A + ['NWAIT=2', 'NPOST=1', 'V0MAX=0', 'TRYLAST=1'], spec=_aspec(3), bounds='abstract wait queue; 1 waiter + 1 trywait, 1 poster, v0 = 0', timeout=1800)
+    j += fvm.config('C06', 'semA_2w1p', 'sem.c', 3, 4, 'sc', srcs=src, defines=A + ['NWAIT=2', 'NPOST=1', 'V0MAX=1', 'TRYLAST=0'], spec=_aspec(3), bounds='abstract wait queue; 2 waiters, 1 poster, v0 in {0,1}', timeout=2400, required=False)
+    if tier == 'thorough':
+        j += fvm.config('C06', 'semA_1w2p', 'sem.c', 3, 4, 'sc', srcs=src, defines=A + ['NWAIT=1', 'NPOST=2', 'V0MAX=1', 'TRYLAST=0'], spec=_aspec(3), bounds='abstract wait queue; 1 waiter, 2 posters', timeout=3000, required=False)
+        j += fvm.config('C06', 'semA_2w2p', 'sem.c', 4, 4, 'sc', srcs=src, defines=A + ['NWAIT=2', 'NPOST=2', 'V0MAX=1', 'TRYLAST=0'], spec=_aspec(4), bounds='abstract wait queue; 2 waiters, 2 posters', timeout=3600, required=False, mem_gb=24)
+    return j
     j += fvm.config('C06', 'sem_1w1p', 'sem.c', 2, 4, 'sc', srcs=src, defines=['NWAIT=1', 'NPOST=1', 'V0MAX=1', 'TRYLAST=0'], spec=_spec(2), bounds='1 waiter, 1 poster, v0 in {0,1}', timeout=1800)
     j += fvm.config('C06', 'sem_try1p', 'sem.c', 3, 4, 'sc', srcs=src, defines=['NWAIT=2', 'NPOST=1', 'V0MAX=0', 'TRYLAST=1'], spec=_spec(3), bounds='1 waiter + 1 trywait, 1 poster, v0 = 0', timeout=1800, required=False)
     if tier == 'thorough':
